@@ -81,7 +81,8 @@ def mutate(rng, text):
     return "".join(chars)
 
 EXTRA += [" ", "€", "→", "“", "”", "🎸", "　", " ", "\x0b", "\x85", "日", "ß", "ǅ"]
-WORDS += ["a'rE", "boys'Re", "€", "€5", "x€", "→", "“hello”", "🎸", " ", "　", " ", " ", " ", "日本語",
+WORDS += ["(c\n)", "\"s\n\"", "(\n)", "\"\n\n\"", "(x\n\n)'s y", "\"é\n\"'re z", "(a\né)", "\"a\n日本\"",
+          "a'rE", "boys'Re", "€", "€5", "x€", "→", "“hello”", "🎸", " ", "　", " ", " ", " ", "日本語",
           "\"Crüe\nüü\" loud", "(c\n日本 🎸)'s x", "\"one\ntwo\"'s up", "(a\nb)'re rocking, now", "\"a\nb\"'s \"x\"\nSay\n"]
 
 
